@@ -103,6 +103,15 @@ func (v *VM[I, O, A]) reprocessFromOutputToInput(ctx context.Context, targetInpu
 		return nil, fmt.Errorf("invalid initial accepted state (Input = %s, Output = %s, Accepted = %s)", targetInputBlock, outputBlock, acceptedBlock)
 	}
 
+	// The state of the starting block may have been committed right before a crash cut off its
+	// notification. The start-up notification only covers the final block, so when there is
+	// anything to re-process the starting block is delivered (again) here: at least once, in order.
+	if targetInputBlock.GetHeight() > outputBlock.GetHeight() {
+		if err := event.NotifyAll[A](ctx, acceptedBlock, v.acceptedSubs...); err != nil {
+			return nil, fmt.Errorf("failed to notify accepted subs of the re-processing start block: %w", err)
+		}
+	}
+
 	// Re-process from the last output block, to the last accepted input block
 	for targetInputBlock.GetHeight() > outputBlock.GetHeight() {
 		reprocessInputBlock, err := v.inputChainIndex.GetBlockByHeight(ctx, outputBlock.GetHeight()+1)
